@@ -166,6 +166,17 @@ func (in *Interp) schedPoint(why string) {
 	if !in.explore || len(in.gs) <= 1 {
 		return
 	}
+	// Only operations that can make another goroutine's progress depend on this one are
+	// preemption points (acquire-like: lock, receive, select, blocking send, wait, explicit yield);
+	// release-like operations (unlock, close, atomic stores, go) commute with the local steps
+	// that follow them under the data-race-freedom assumption.
+	switch why {
+	case "unlock", "close", "atomic", "go", "wg.Done", "sleep", "gosched":
+		return
+	}
+	if in.preemptions >= in.preemptionBound {
+		return
+	}
 	rs := in.runnable()
 	if len(rs) <= 1 {
 		return
@@ -179,6 +190,7 @@ func (in *Interp) schedPoint(why string) {
 	}
 	next := ordered[in.choose("sc", len(ordered))]
 	if next != in.cur {
+		in.preemptions++
 		in.switchTo(next)
 	}
 }
